@@ -98,7 +98,9 @@ Step(s, ev, stub) ==
     [] nm = "uci.complete.won" ->
          \* a book answer is given by the loop itself right after the go command, without a search
          LET book == ev.role = "loop" /\ s.bookgo /\ s.lastcmd = "go"
-             s1 == AddFail(s, "c16.completion-without-pending-go", s.pending \/ book)
+             \* (for C04: an answer nobody is waiting for is a second bestmove for some go, or one for none)
+             s1 == AddFail(AddFail(s, "c16.completion-without-pending-go", s.pending \/ book),
+                           "c04.bestmove-without-pending-go", s.pending \/ book)
              \* the completion belongs to the pending go: it is made by the loop (stop / book) or by
              \* the forwarder of the search that go launched (forwarders are numbered in launch order)
              s2 == AddFail(s1, "c16.bestmove-of-superseded-search", ev.role = "loop" \/ ev.role = "fwd" \o ToString(s.cur))
